@@ -231,18 +231,18 @@ theorem bfsLoop_spec (hbin : ∀ i j, L.get i j ≤ 1) (fuel : ℕ) {b w : SrcSt
         rw [hV']
         apply List.filter_congr
         intro j _
-        have hiff : (V.any fun v => b1.G1.get v j != 0) = true ↔ (w1.D[j] == some (m + 1)) = true := by
-          rw [beq_iff_eq]
+        have hiff : (V.any fun v => b1.G1.get v j != 0) = true ↔
+            (w1.S[j] && w1.D[j] == some (m + 1)) = true := by
           constructor
           · intro hj
             obtain ⟨v, hv, hS, hL⟩ := hadj j hj
             have hd := hreach j ⟨v, hv, hS, hL⟩
             have hjV : j ∈ V' := (hI.Vmem j).2 hd
             rw [hV', List.mem_filter] at hjV
-            exact beq_iff_eq.1 hjV.2
+            exact hjV.2
           · intro hD
             have hjV : j ∈ V' := by
-              rw [hV', List.mem_filter]; exact ⟨List.mem_finRange j, beq_iff_eq.2 hD⟩
+              rw [hV', List.mem_filter]; exact ⟨List.mem_finRange j, hD⟩
             have hd := (hI.Vmem j).1 hjV
             have hS : w1.S[j] = true := by
               by_contra hS
